@@ -4,7 +4,8 @@ For one Python function (`Fn`):
 
 * `skel : [str]` — the control skeleton: one entry per statement in source order (`if <test>` / `else` / `while <test>` /
   `for <target> in <iter>` / `<targets> = <value>` / `<target> op= <value>` / `return <value>` / `raise <Class>` /
-  `assert <test>` / `break` / `continue` / `pass` / `call <call>` / `def <name>(<args>)`), nesting depth as a prefix of
+  `assert <test>` / `break` / `continue` / `pass` / `call <call>` / `def <name>(<args>)` / `class <name>(<bases>)` /
+  imports / `try` `except` `finally` / `with`), nesting depth as a prefix of
   dots; docstrings, comments and exception messages dropped.
 * `defs` — every test / assigned value / returned value / maximal sub-expression that is a pure integer expression
   (names and attribute leaves that hold Python ints, int literals, `len(x)`, opaque int-valued calls, `+ - * // % & | << >>
@@ -38,7 +39,7 @@ class Config:
 
     def __init__(self, int_params=None, int_locals=None, int_calls=(), int_tuple_calls=(), int_leaf=None,
                  int_tuple_values=None, int_iters=None, cond_subexprs=False, legacy_call_names=True,
-                 trivial_tests=False):
+                 trivial_tests=False, module_mode=False):
         self.int_params = int_params or {}
         self.int_locals = int_locals or {}
         self.int_calls = set(int_calls)
@@ -48,6 +49,7 @@ class Config:
         self.int_iters = int_iters or (lambda e: False)         # `for a, b in <this>` binds ints
         self.cond_subexprs = cond_subexprs
         self.legacy_call_names = legacy_call_names
+        self.module_mode = module_mode          # the unit is a module: top-level defs / methods are recorded by header only
         self.trivial_tests = trivial_tests      # also emit `if x:` / `while x:` / `assert x` on a bare int name or leaf
 
 
@@ -61,6 +63,7 @@ class Fn:
         self.skel = []
         self.defs = []          # (lean name, params | None, type, body | reason, source text)
         self.count = {}
+        self.compound = 0       # nesting inside if / try / with / loops (module mode: defs in there are walked in full)
         self.find_ints()
         self.walk(fdef.body, 0)
 
@@ -166,7 +169,9 @@ class Fn:
                         return "((2 : Int) ^ (%s).toNat)" % self.expr(e.right, params)
                     raise Unsupported("power with a non-literal exponent and a base other than 2 in %s" % self.name)
                 if not (isinstance(e.right, ast.Constant) and isinstance(e.right.value, int) and e.right.value >= 0):
-                    raise Unsupported("shift by a non-literal in %s" % self.name)
+                    if isinstance(e.op, ast.LShift):
+                        return "(%s * (2 : Int) ^ (%s).toNat)" % (l, self.expr(e.right, params))
+                    return "(Int.fdiv %s ((2 : Int) ^ (%s).toNat))" % (l, self.expr(e.right, params))
                 k = e.right.value
                 return ("(%s * (2 : Int) ^ %d)" if isinstance(e.op, ast.LShift) else "(Int.fdiv %s ((2 : Int) ^ %d))") % (l, k)
             r = self.expr(e.right, params)
@@ -247,10 +252,12 @@ class Fn:
                 self.emit_def("if", s.test, True)
                 if not self.is_cond(s.test):
                     self.subexprs(s.test)
+                self.compound += 1
                 self.walk(s.body, depth + 1)
                 if s.orelse:
                     self.skel.append(pre + "else")
                     self.walk(s.orelse, depth + 1)
+                self.compound -= 1
             elif isinstance(s, ast.While):
                 self.skel.append(pre + "while " + ast.unparse(s.test))
                 self.emit_def("while", s.test, True)
@@ -298,14 +305,48 @@ class Fn:
             elif isinstance(s, ast.Pass):
                 self.skel.append(pre + "pass")
             elif isinstance(s, ast.FunctionDef):
-                self.skel.append(pre + "def %s(%s)" % (s.name, ", ".join(a.arg for a in s.args.args)))
+                for d in s.decorator_list:
+                    self.skel.append(pre + "@" + ast.unparse(d))
+                self.skel.append(pre + "def %s(%s)" % (s.name, ast.unparse(s.args) if self.cfg.module_mode else
+                                                       ", ".join(a.arg for a in s.args.args)))
+                if not (self.cfg.module_mode and self.compound == 0):
+                    self.walk(s.body, depth + 1)
+            elif isinstance(s, ast.ClassDef):
+                for d in s.decorator_list:
+                    self.skel.append(pre + "@" + ast.unparse(d))
+                self.skel.append(pre + "class %s(%s)" % (s.name, ", ".join(ast.unparse(b) for b in s.bases)))
                 self.walk(s.body, depth + 1)
+            elif isinstance(s, (ast.Import, ast.ImportFrom, ast.Delete, ast.Global, ast.Nonlocal)):
+                self.skel.append(pre + ast.unparse(s))
+            elif isinstance(s, ast.Try):
+                self.skel.append(pre + "try")
+                self.compound += 1
+                self.walk(s.body, depth + 1)
+                for h in s.handlers:
+                    self.skel.append(pre + "except " + (ast.unparse(h.type) if h.type is not None else "")
+                                     + (" as " + h.name if h.name else ""))
+                    self.walk(h.body, depth + 1)
+                if s.orelse:
+                    self.skel.append(pre + "else")
+                    self.walk(s.orelse, depth + 1)
+                if s.finalbody:
+                    self.skel.append(pre + "finally")
+                    self.walk(s.finalbody, depth + 1)
+                self.compound -= 1
+            elif isinstance(s, ast.With):
+                self.skel.append(pre + "with " + ", ".join(ast.unparse(i) for i in s.items))
+                self.compound += 1
+                self.walk(s.body, depth + 1)
+                self.compound -= 1
             elif isinstance(s, ast.Expr) and isinstance(s.value, ast.Call):
                 if ast.unparse(s.value.func) == "warnings.warn":
                     self.skel.append(pre + "call warnings.warn")
                 else:
                     self.skel.append(pre + "call " + ast.unparse(s.value))
                     self.subexprs(s.value)
+            elif isinstance(s, ast.Expr):
+                self.skel.append(pre + "expr " + ast.unparse(s.value))
+                self.subexprs(s.value)
             else:
                 raise Unsupported("statement %s in %s" % (type(s).__name__, self.name))
 
